@@ -8,7 +8,7 @@ ValueError, R5 classification survives truncation.
 import ast
 
 from sa import callgraph
-from sa.astutil import (call_name, calls_in, dotted, norm, walk_no_nested, last_attr,
+from sa.astutil import (anorm, call_name, calls_in, dotted, norm, walk_no_nested, last_attr,
                         names_in, fact_texts, facts_at, try_fold, enclosing_loops, is_inf,
                         func_params, literal, FoldError, ancestors)
 from sa.consteval import eval_init, UNKNOWN
@@ -293,7 +293,7 @@ def run(ctx):
             if op is None:
                 continue
             n_ops += 1
-            key = '%s.%s:%s' % (fid[0], fid[1], norm(node)[:80])
+            key = '%s.%s:%s' % (fid[0], fid[1], anorm(node, fn)[:80])
             if why is None and key in tri:
                 ctx.triage('c12_partial_ops', key)
                 why = 'lemma: ' + tri[key]
@@ -317,7 +317,7 @@ def run(ctx):
             if not isinstance(node, (ast.Raise, ast.Assert)):
                 continue
             n_r += 1
-            key = '%s.%s:%s' % (fid[0], fid[1], norm(node)[:70])
+            key = '%s.%s:%s' % (fid[0], fid[1], anorm(node, fn)[:70])
             if texts.count(norm(node)[:70]) > 1:
                 ordinal[key] = ordinal.get(key, 0) + 1
                 key += '#%d' % ordinal[key]
@@ -374,7 +374,7 @@ def run(ctx):
                                 for x in (s_.value.left, s_.value.right)):
                         ok = True
             if not ok:
-                key = '%s.%s:%s' % (fid[0], fid[1], norm(c)[:80])
+                key = '%s.%s:%s' % (fid[0], fid[1], anorm(c, fn)[:80])
                 r = tri.get(key)
                 if r is not None:
                     ctx.triage('c12_partial_ops', key)
@@ -482,7 +482,7 @@ def run(ctx):
                         and set(acid_t) == set(base_t):
                     ok, why = True, ('`ok` is cleared only for a type that is a key of one table '
                                      'and both tables have the same keys')
-            key = '%s.%s:%s' % (fid[0], fid[1], norm(node)[:70])
+            key = '%s.%s:%s' % (fid[0], fid[1], anorm(node, fn)[:70])
             dup = sum(1 for o in ctx.obligations if o['key'].startswith('lookup:' + key))
             if dup:
                 key += '#%d' % (dup + 1)
